@@ -261,13 +261,17 @@ def rule_fault(body, I, M):
 RULES["fault"] = rule_fault
 
 PROPS["C16"] = dict(
-    disabled=True, na_reason="model and correspondence tie built; theorems are being proved (statements in lean/RefmtProofs/Props/C16.lean)",
     level="proof",
     lean_module="RefmtProofs.Props.C16",
-    theorems=[],
+    theorems=["Refmt.C16.no_fault_same", "Refmt.C16.cbor_write_fault", "Refmt.C16.json_write_fault", "Refmt.C16.cbor_read_fault",
+              "Refmt.C16.json_read_fault"],
     streams=[dict(name="wfault", gen="wfault", rule="fault"), dict(name="rfault", gen="rfault", rule="fault")],
     title="I/O failures are reported, never swallowed",
-    claim="(work in progress)",
+    claim="Theorems: for every document (well-formed tree of the format's domain; every JSON option) and every fault (error, short count, "
+          "both; fail-once or fail-stop) at any Write call the document needs, the encoder-model run ends in an error; for every byte "
+          "string the fault-free decoder model accepts and every injected reader error at an offset strictly inside the item, decoding "
+          "returns that error (both decoders, fail-once and fail-stop). Tie: fault enumeration against the real encoders (step by step "
+          "and through the real TokenPump, Write-call counts compared) and decoders.",
     rule_text="wfault: documents x both encoders (JSON compact and pretty) x every Write-call index up to the number the document needs "
               "x {error, short count, both} x {fail-once, fail-stop}, run step by step and through the real TokenPump; rfault: documents "
               "of both formats x a distinguished reader error at every byte offset x {fail-once, fail-stop}; non-trivial = the fault fires",
